@@ -6,7 +6,7 @@ import json, os, subprocess, sys, glob, shutil, time
 V = os.path.dirname(os.path.dirname(os.path.abspath(__file__)))
 extra = {"C01-m1": ["C07"], "C02-m2": ["C17"], "C11-m2": ["C19"], "C16-m1": ["C12"], "C03-m2": ["C12"], "C12-m2": ["C08"], "C04-m3": ["C13"], "C12-m4": ["C13"], "C01-m5": ["C17"], "C01-m6": ["C10"], "C04-m6": ["C13"], "C09-m5": ["C14"], "C20-m3": ["C14"], "C02-m3": ["C16"], "C01-m7": ["C07"], "C16-m7": ["C04"], "C02-m8": ["C18"], "C11-m7": ["C15"], "C15-m8": ["C14"], "C01-m9": ["C07", "C08"], "C01-m10": ["C12"], "C07-m10": ["C18"], "C19-m9": ["C13"], "C11-m10": ["C12"], "C15-m9": ["C14"], "C13-m10": ["C18"], "C10-m9": ["C16"], "C02-m9": ["C16"], "C01-m11": ["C18"], "C01-m12": ["C11"], "C03-m11": ["C13"], "C12-m11": ["C01"], "C14-m11": ["C15"], "C07-m11": ["C08"]}
 extra.update({"C02-m11": ["C16"], "C04-m13": ["C09"], "C08-m11": ["C09", "C12"], "C12-m13": ["C18"], "C03-m13": ["C12"], "C01-m13": ["C12", "C17"], "C11-m12": ["C03"], "C14-m14": ["C15"],
-              "C01-m14": ["C07"], "C08-m12": ["C09"], "C12-m14": ["C19", "C17"], "C07-m14": ["C10"]})
+              "C01-m14": ["C07"], "C08-m12": ["C09"], "C12-m14": ["C19", "C17"], "C07-m14": ["C10"], "C09-m15": ["C07"], "C03-m15": ["C13"], "C08-m13": ["C09"], "C12-m15": ["C17"]})
 args = sys.argv[1:]
 jobs = 1
 if args and args[0] == "--jobs":
